@@ -187,9 +187,10 @@ def krylov_dim(Ms, v0, nmax):
     breakdown threshold): an implementation run with more iterations than this went on with rounding noise."""
     m = Ms.shape[0]
     if m == 0 or np.linalg.norm(v0) == 0:
-        return 0
+        return 0, []
     scale = max(1e-300, np.linalg.norm(Ms, 2))
     V = [v0 / np.linalg.norm(v0)]
+    ratios = []
     for k in range(min(m, nmax)):
         w = Ms @ V[-1]
         for _ in range(2):
@@ -197,9 +198,18 @@ def krylov_dim(Ms, v0, nmax):
                 w = w - np.vdot(v, w) * v
         nw = np.linalg.norm(w)
         if nw < 1e-9 * scale or len(V) == m:
-            return len(V)
+            return len(V), ratios
+        ratios.append(nw / scale)
         V.append(w / nw)
-    return len(V)
+    return len(V), ratios
+
+
+def cond_tol(scale, ratios, N):
+    """tolerance for Ritz data: orthogonality of a Krylov basis is lost like eps / (smallest relative norm of a new vector)"""
+    c = 1.0
+    for r in ratios[:max(0, N - 1)]:
+        c *= min(1.0, 10 * r)          # errors are amplified by every small new vector (single-pass Gram-Schmidt)
+    return scale * min(1e-3, max(1e-8, 1e-13 / max(c, 1e-300)))
 
 
 def wkey(which, z):
@@ -226,9 +236,9 @@ def oracle_lanczos(ctx, case, r):
     early = N >= 1 and abs(pl['beta'][N - 1]) < cutoff
     if N > opts['N_max'] or (N < opts['N_min'] and not early):
         probs.append('N=%d outside [N_min=%d, N_max=%d] without cutoff exit' % (N, opts['N_min'], opts['N_max']))
-    dK = krylov_dim(Ms, v0s, opts['N_max'] + 1)
+    dK, ratios = krylov_dim(Ms, v0s, opts['N_max'] + 1)
     well = N <= dK       # beyond the exact Krylov dimension only rounding noise is added (N_min forces it, or the cutoff missed it)
-    tol = 1e-8 * scale
+    tol = cond_tol(scale, ratios, N)
     if case.get('evo') is None:
         E_run = pl['E'] + s
         if abs(np.linalg.norm(x) - 1.0) > 1e-10:
@@ -240,9 +250,9 @@ def oracle_lanczos(ctx, case, r):
             lam = np.linalg.eigvalsh(Ms)
             if E_run < lam[0] - tol:
                 probs.append('E0 %.12g below the smallest eigenvalue %.12g' % (E_run, lam[0]))
-            if N == m and dK == m and abs(E_run - lam[0]) > 1e-7 * scale:
+            if N == m and dK == m and abs(E_run - lam[0]) > 10 * tol:
                 probs.append('Krylov dimension = space dimension %d but E0 %.12g != lambda_min %.12g' % (m, E_run, lam[0]))
-            if N == m and dK == m and np.linalg.norm(Ms @ x - E_run * x) > 1e-5 * scale:
+            if N == m and dK == m and np.linalg.norm(Ms @ x - E_run * x) > max(1e-5 * scale, 100 * tol):
                 probs.append('Krylov dimension = space dimension but the returned vector is not an eigenvector')
         # first Lanczos coefficient is the Rayleigh quotient of the start vector
         a0 = (v0s.conj() @ Ms @ v0s).real / (v0s.conj() @ v0s).real
@@ -253,8 +263,7 @@ def oracle_lanczos(ctx, case, r):
             if abs(t0['E'] - t1['E']) > 1e-9 * scale or t0['N'] != t1['N'] or abs(t0['E'] - pl['E']) > 1e-9 * scale:
                 msg = ('second LanczosGroundState on the same operator object returns E0=%.12g, the first %.12g (options E_shift=%s)'
                        % (t1['E'], t0['E'], opts.get('E_shift')))
-                if case.get('wrap') == 'ortho' and opts.get('E_shift') is not None and abs(t0['E'] - pl['E']) <= 1e-9 * scale \
-                        and abs(t1['E'] - t0['E']) <= abs(opts['E_shift']) + 1e-9 * scale:
+                if case.get('wrap') == 'ortho' and opts.get('E_shift') is not None and abs(t0['E'] - pl['E']) <= 1e-9 * scale:
                     known.append(msg)
                 else:
                     probs.append(msg)
@@ -270,7 +279,8 @@ def oracle_lanczos(ctx, case, r):
         if delta.real == 0.0 and not normalize and abs(nrm - np.linalg.norm(v0s)) > 1e-9 * np.linalg.norm(v0s):
             probs.append('anti-Hermitian exponent: norm %.15g != norm of start vector %.15g' % (nrm, np.linalg.norm(v0s)))
         accurate = well and (N < opts['N_max'] or N >= dK)
-        if accurate and np.linalg.norm(x - ref) > 1e-7 * max(1.0, np.linalg.norm(ref)):
+        etol = max(1e-7, 10 * tol / scale)
+        if accurate and np.linalg.norm(x - ref) > etol * max(1.0, np.linalg.norm(ref)):
             probs.append('exp(delta H) psi0: deviation %.3e from scipy expm (N=%d, dim=%d)' % (np.linalg.norm(x - ref), N, m))
         if 'rerun' in pl:
             d2 = complex(*case['rerun'])
@@ -279,7 +289,7 @@ def oracle_lanczos(ctx, case, r):
             ref2 = ex2 / np.linalg.norm(ex2) if n2 else ex2
             x2 = G.dec(pl['rerun']['psi'])[I]
             N2 = pl['rerun']['N']
-            if (N2 < opts['N_max'] or N2 >= dK) and well and np.linalg.norm(x2 - ref2) > 1e-7 * max(1.0, np.linalg.norm(ref2)):
+            if (N2 < opts['N_max'] or N2 >= dK) and well and N2 <= dK and np.linalg.norm(x2 - ref2) > etol * max(1.0, np.linalg.norm(ref2)):
                 msg = 'second run() of the same LanczosEvolution: deviation %.3e from expm (N=%d)' % (np.linalg.norm(x2 - ref2), N2)
                 nc_ = opts.get('N_cache') or opts['N_max']
                 if opts.get('reortho') and N > nc_ + 1:
@@ -295,7 +305,12 @@ def oracle_lanczos(ctx, case, r):
             ov = np.vdot(pa, psi)
             if abs(ov) > 0:
                 pa = pa * (ov / abs(ov))
-        if ac['N'] != N or abs(ac['E'] - pl['E']) > 1e-9 * scale or np.linalg.norm(pa - psi) > 1e-9 * max(1.0, np.linalg.norm(psi)):
+        if opts.get('reortho'):
+            # by design the re-orthogonalisation uses what is in the cache: only the Ritz value is compared, loosely
+            dep = abs(ac['E'] - pl['E']) > max(1e-6 * scale, 100 * tol) and ac['N'] == N
+        else:
+            dep = ac['N'] != N or abs(ac['E'] - pl['E']) > 1e-9 * scale or np.linalg.norm(pa - psi) > 1e-9 * max(1.0, np.linalg.norm(psi))
+        if dep:
             probs.append('result depends on N_cache=%s: E %.12g vs %.12g, |dpsi| = %.3e, N %d vs %d' % (
                 opts.get('N_cache'), pl['E'], ac['E'], np.linalg.norm(pa - psi), N, ac['N']))
     return probs, known, {'N': N, 'm': m, 'well': well, 'early': early}
@@ -315,8 +330,9 @@ def oracle_arnoldi(ctx, case, r):
             ref = exact / np.linalg.norm(exact) if normalize else exact
             x = G.dec(run['psi'])[I]
             N = run['N']
-            dK = krylov_dim(Ms, v0s, case['opts']['N_max'] + 1)
-            if N <= dK and (N < case['opts']['N_max'] or N >= dK) and np.linalg.norm(x - ref) > 1e-7 * max(1.0, np.linalg.norm(ref)):
+            dK, ratios = krylov_dim(Ms, v0s, case['opts']['N_max'] + 1)
+            etol = max(1e-7, 10 * cond_tol(scale, ratios, N) / scale)
+            if N <= dK and (N < case['opts']['N_max'] or N >= dK) and np.linalg.norm(x - ref) > etol * max(1.0, np.linalg.norm(ref)):
                 probs.append('ArnoldiEvolution delta=%s: deviation %.3e from expm (N=%d, dim=%d)' % (d, np.linalg.norm(x - ref), N, m))
             if normalize and abs(np.linalg.norm(x) - 1) > 1e-10:
                 probs.append('ArnoldiEvolution normalize: norm %.15g' % np.linalg.norm(x))
@@ -327,13 +343,14 @@ def oracle_arnoldi(ctx, case, r):
     which = case['which']
     Es = G.dec(r['Es'])
     N = r['N']
-    dK = krylov_dim(Ms, v0s, case['opts']['N_max'] + 1)
+    dK, ratios = krylov_dim(Ms, v0s, case['opts']['N_max'] + 1)
+    tol = cond_tol(scale, ratios, N)
     k = min(N, case['opts']['num_ev'])
     if len(r['psis']) != k:
         probs.append('%d vectors for min(N, num_ev) = %d' % (len(r['psis']), k))
     E_run = Es[:k] + s
     keys = [wkey(which, z) for z in E_run]
-    if any(keys[i] > keys[i + 1] + 1e-9 * scale for i in range(len(keys) - 1)):
+    if any(keys[i] > keys[i + 1] + 1e-12 * scale for i in range(len(keys) - 1)):
         probs.append('Ritz values %s not ordered as which=%s requests' % (list(E_run), case['opts']['which']))
     if N <= dK:
         for i, pv in enumerate(r['psis'][:k]):
@@ -341,13 +358,13 @@ def oracle_arnoldi(ctx, case, r):
             if abs(np.linalg.norm(x) - 1) > 1e-9:
                 probs.append('Ritz vector %d not normalised' % i)
             rq = x.conj() @ Ms @ x
-            if abs(rq - E_run[i]) > 1e-7 * scale:
+            if abs(rq - E_run[i]) > 10 * tol:
                 probs.append('Ritz value %d = %s is not the Rayleigh quotient %s of its vector' % (i, E_run[i], rq))
         if N == m and dK == m:
             ev = np.linalg.eigvals(Ms)
             ev = sorted(ev, key=lambda z: wkey(which, z))
             for i in range(k):
-                if abs(wkey(which, ev[i]) - keys[i]) > 1e-5 * scale:
+                if abs(wkey(which, ev[i]) - keys[i]) > max(1e-5 * scale, 1000 * tol):
                     probs.append('full Krylov dimension: %d-th requested eigenvalue %s, got %s' % (i, ev[i], E_run[i]))
                     break
     return probs, {'m': m, 'N': N}
@@ -370,7 +387,7 @@ def oracle_gmres(ctx, case, r):
     # the error history: the estimate on which the solver decided, vs the actual residual of the returned x
     te = r['total_error']
     x0 = G.extra_vectors(spec, M, 1, tag=3)[0] * case['x0_scale']
-    dK = krylov_dim(A[np.ix_(I, I)], (b - A @ x0)[I], 100)
+    dK, _ = krylov_dim(A[np.ix_(I, I)], (b - A @ x0)[I], 100)
     if len(r['iters']) == 1 and r['iters'][0] <= dK:      # beyond the exhausted Krylov space (N_min forces it) only noise is added
         est = te[0][-1]
         if abs(est - true) > 1e-8 + 1e-6 * true:
